@@ -14,6 +14,7 @@ package main
 //   inv:<type>~<hash>/...    getdata, notfound: the same
 //   ping:<nonce>  pong:<nonce>  feefilter:<fee>  reject:<cmd hex>,<code>,<reason hex>,<hash hex>
 //   verack:  getaddr:  mempool:  sendheaders:   protoconf:<fields>,<maxrecv>
+//   filteradd:<data hex>   filterclear:   filterload:<filter hex>,<hashfuncs>,<tweak>,<flags>
 //   opaque:<command>    (payload decoder outside the model)
 
 import (
@@ -31,10 +32,10 @@ import (
 )
 
 var c14Modelled = []string{"version", "verack", "getaddr", "addr", "getblocks", "getheaders", "headers", "inv",
-	"getdata", "notfound", "ping", "pong", "reject", "sendheaders", "feefilter", "mempool", "protoconf"}
+	"getdata", "notfound", "ping", "pong", "reject", "sendheaders", "feefilter", "mempool", "protoconf",
+	"filteradd", "filterclear", "filterload"}
 
-var c14Opaque = map[string]bool{"block": true, "tx": true, "filteradd": true, "filterclear": true, "filterload": true,
-	"merkleblock": true, "getcfilters": true, "getcfheaders": true, "getcfcheckpt": true, "cfilter": true,
+var c14Opaque = map[string]bool{"block": true, "tx": true, "merkleblock": true, "getcfilters": true, "getcfheaders": true, "getcfcheckpt": true, "cfilter": true,
 	"cfheaders": true, "cfcheckpt": true}
 
 var c14AllCmds = []string{"version", "verack", "getaddr", "addr", "getblocks", "inv", "getdata", "notfound", "block", "tx",
@@ -113,6 +114,12 @@ func c14Summarize(m wire.Message) string {
 		return "mempool:"
 	case *wire.MsgProtoconf:
 		return fmt.Sprintf("protoconf:%d,%d", t.NumberOfFields, t.MaxRecvPayloadLength)
+	case *wire.MsgFilterAdd:
+		return "filteradd:" + hex.EncodeToString(t.Data)
+	case *wire.MsgFilterClear:
+		return "filterclear:"
+	case *wire.MsgFilterLoad:
+		return fmt.Sprintf("filterload:%s,%d,%d,%d", hex.EncodeToString(t.Filter), t.HashFuncs, t.Tweak, uint8(t.Flags))
 	}
 	return "opaque:" + m.Command()
 }
@@ -274,6 +281,17 @@ func c14Parse(s string) (wire.Message, error) {
 			return nil, fmt.Errorf("protoconf fields %d", len(f))
 		}
 		m = &wire.MsgProtoconf{NumberOfFields: p.u64(f[0]), MaxRecvPayloadLength: uint32(p.u64(f[1]))}
+	case "filteradd":
+		m = &wire.MsgFilterAdd{Data: p.hx(body)}
+	case "filterclear":
+		m = &wire.MsgFilterClear{}
+	case "filterload":
+		f := strings.Split(body, ",")
+		if len(f) != 4 {
+			return nil, fmt.Errorf("filterload fields %d", len(f))
+		}
+		m = &wire.MsgFilterLoad{Filter: p.hx(f[0]), HashFuncs: uint32(p.u64(f[1])), Tweak: uint32(p.u64(f[2])),
+			Flags: wire.BloomUpdateType(p.u64(f[3]))}
 	default:
 		return nil, fmt.Errorf("unknown kind %q", kind)
 	}
@@ -491,6 +509,33 @@ func (g *c14gen) msg(kind string, pver uint32, allowBad bool, big bool) wire.Mes
 		return &wire.MsgMemPool{}
 	case "protoconf":
 		return &wire.MsgProtoconf{NumberOfFields: g.u64(), MaxRecvPayloadLength: g.u32()}
+	case "filteradd":
+		ls := []int{0, 1, 32, 0xfc, 0xfd, wire.MaxFilterAddDataSize - 1, wire.MaxFilterAddDataSize}
+		if allowBad {
+			ls = append(ls, wire.MaxFilterAddDataSize+1, 600)
+		}
+		return &wire.MsgFilterAdd{Data: g.bytesN(ls[g.r.Intn(len(ls))])}
+	case "filterclear":
+		return &wire.MsgFilterClear{}
+	case "filterload":
+		ls := []int{0, 1, 32, 0xfc, 0xfd, 1000}
+		if big {
+			ls = append(ls, wire.MaxFilterLoadFilterSize-1, wire.MaxFilterLoadFilterSize)
+			if allowBad {
+				ls = append(ls, wire.MaxFilterLoadFilterSize+1)
+			}
+		}
+		hf := uint32(g.r.Intn(wire.MaxFilterLoadHashFuncs + 1))
+		switch g.r.Intn(8) {
+		case 0:
+			hf = wire.MaxFilterLoadHashFuncs
+		case 1:
+			if allowBad {
+				hf = []uint32{wire.MaxFilterLoadHashFuncs + 1, 0xffffffff}[g.r.Intn(2)]
+			}
+		}
+		return &wire.MsgFilterLoad{Filter: g.bytesN(ls[g.r.Intn(len(ls))]), HashFuncs: hf, Tweak: g.u32(),
+			Flags: wire.BloomUpdateType(g.u32())}
 	}
 	panic("c14gen: kind " + kind)
 }
